@@ -48,6 +48,7 @@ structure Far (f : Forest) (keep : Keep) (c : Nat) (t : HTree) (q : Nat) (vq : V
   kid : KidMap φ
   fix : φ t = t
   ysite : SiteAt Y q vq (Lq.map φ)
+  xsite : ∃ φ', KidMap φ' ∧ φ' t = t ∧ SiteAt X q vq (Lq.map φ')
   spec : ∀ dest : Dest, dest.occupiedBy f c = false → dest.site f = some q →
     (∀ ψ, KidMap ψ → ψ t = t → NatFor ψ (dest.insert t)) →
     specMove keep dest c f = (Y.editAt (some q) (dest.insert t)).mergeAt keep (some q)
@@ -60,7 +61,7 @@ theorem far_root {f : Forest} {keep : Keep} {c : Nat} {t : HTree} {q : Nat} {vq 
     Far f keep c t q vq Lq f (f.editAt none (dropTop c)) id := by
   have nd := sq.nd
   have hpar : f.parent? c = none := Forest.parent?_of_no_ctx hroot
-  refine ⟨nd, hgc, by rw [hpar], rfl, rfl, kidMap_id, rfl, ?_, ?_, ?_⟩
+  refine ⟨nd, hgc, by rw [hpar], rfl, rfl, kidMap_id, rfl, ?_, ⟨id, kidMap_id, rfl, by rw [List.map_id]; exact sq⟩, ?_, ?_⟩
   · rw [List.map_id]; exact sq.dropRoot hgc hq
   · intro dest hocc hs _
     rw [specMove_unfold hocc hgc hs, hpar, mergeAt_none]
@@ -103,7 +104,9 @@ theorem far_kid {f : Forest} {keep : Keep} {po : Nat} {vo : Value} {l : List HTr
   have nd := sq.nd
   have hold := old_stage inv norm so
   have hleafo := so.leaf inv.valid
-  obtain ⟨l1, r1, sX, hX, hsub, hlk⟩ := hold.site so hleafo
+  obtain ⟨l1, r1, sX, hX, ⟨hsubl, hsubr⟩, hlk⟩ := hold.site so hleafo
+  have hsub : (handlesList (l1 ++ r1)).Sublist (handlesList (l ++ r)) := by
+    rw [handlesList_append, handlesList_append]; exact hsubl.append hsubr
   have hcut := hold.cut_eq inv norm so hkeep
   obtain ⟨ndL, hpoL⟩ := so.nodupKids
   obtain ⟨tl, tr⟩ := tops_ne_of_nodup ndL
@@ -148,12 +151,24 @@ theorem far_kid {f : Forest} {keep : Keep} {po : Nat} {vo : Value} {l : List HTr
     simp only [handlesList_append, handlesList_cons]
     exact (List.Sublist.refl _).append (List.sublist_append_right _ _)
   have sY := so.other sq.kids hne.symm (fun _ => l1 ++ r1) hsub' hlook
+  have hlookX : findList? q (l1 ++ t :: r1) = findList? q (l ++ t :: r) := by
+    obtain ⟨e1, e2⟩ := hlk q (fun k hk => hqtext k (by
+      cases List.mem_append.1 hk with
+      | inl e => exact List.mem_append_left _ e
+      | inr e => exact List.mem_append_right _ (List.mem_cons_of_mem _ e)))
+    rw [findList?_append, findList?_append, findList?_cons, findList?_cons, e1, e2]
+  have hsubX : (handlesList (l1 ++ t :: r1)).Sublist (handlesList (l ++ t :: r)) := by
+    rw [handlesList_append, handlesList_append, handlesList_cons, handlesList_cons]
+    exact hsubl.append ((List.Sublist.refl _).append hsubr)
+  have sXq := so.other sq.kids hne.symm (fun _ => l1 ++ t :: r1) hsubX hlookX
+  rw [← hX] at sXq
   refine ⟨HTree.editAt po (fun _ => l1 ++ r1), sX.nd, sX.getKid, ?_, ?_, ?_, kidMap_editAt _ _,
-    editAt_of_not_mem t hpot, ?_, ?_, ?_⟩
+    editAt_of_not_mem t hpot, ?_, ?_, ?_, ?_⟩
   · rw [hXpar]; exact hcut
   · rw [hX]; rfl
   · rw [hY]; rfl
   · rw [hY]; exact sY
+  · exact ⟨_, kidMap_editAt _ _, editAt_of_not_mem t hpot, sXq⟩
   · -- the specification: graft and old-site merge commute
     intro dest hocc hs hnat
     have hpar : f.parent? t.handle = some po := Forest.parent?_of_ctx so.ctx
